@@ -1,0 +1,18 @@
+//go:build verif
+
+package secureservice
+
+import (
+	"github.com/anyproto/any-sync/commonspace/object/accountdata"
+	"github.com/anyproto/any-sync/net/secureservice/handshake"
+)
+
+// VerifNewNoVerifyChecker exposes the unexported credential checker to the verification harness.
+func VerifNewNoVerifyChecker(protoVersion uint32, compatibleProtoVersions []uint32, clientVersion string) handshake.CredentialChecker {
+	return newNoVerifyChecker(protoVersion, compatibleProtoVersions, clientVersion)
+}
+
+// VerifNewPeerSignVerifier exposes the unexported credential checker to the verification harness.
+func VerifNewPeerSignVerifier(protoVersion uint32, compatibleProtoVersions []uint32, clientVersion string, account *accountdata.AccountKeys) handshake.CredentialChecker {
+	return newPeerSignVerifier(protoVersion, compatibleProtoVersions, clientVersion, account)
+}
